@@ -8,6 +8,7 @@ import (
 	"io"
 	"net/http"
 	"net/http/httptest"
+	"net/url"
 
 	"github.com/fabiolb/fabio/admin/api"
 	"github.com/fabiolb/fabio/admin/ui"
@@ -27,11 +28,33 @@ var handlers = map[string]http.Handler{
 func Poke(tbl route.Table) int {
 	route.SetTable(tbl)
 	n := 0
-	for url, h := range handlers {
+	for path, h := range handlers {
 		rec := httptest.NewRecorder()
-		h.ServeHTTP(rec, httptest.NewRequest("GET", "http://admin.local"+url, nil))
+		h.ServeHTTP(rec, httptest.NewRequest("GET", "http://admin.local"+path, nil))
 		io.Copy(io.Discard, rec.Body)
 		n++
 	}
+	// the listing filtered by every service of the table (query parameters of the routes API),
+	// and the renderings fabio writes to its log when a table is installed (log.routes.format)
+	seen := map[string]bool{}
+	for _, rs := range tbl {
+		for _, r := range rs {
+			for _, tg := range r.Targets {
+				if seen[tg.Service] {
+					continue
+				}
+				seen[tg.Service] = true
+				for _, q := range []string{"service=", "svc=", "name="} {
+					rec := httptest.NewRecorder()
+					handlers["/api/routes"].ServeHTTP(rec, httptest.NewRequest("GET", "http://admin.local/api/routes?"+q+url.QueryEscape(tg.Service), nil))
+					io.Copy(io.Discard, rec.Body)
+					n++
+				}
+			}
+		}
+	}
+	_ = tbl.String()
+	_ = tbl.Dump()
+	n += 2
 	return n
 }
